@@ -247,6 +247,26 @@ func c01Check(sc *syncCase, files []c01File, src2files []c01File) core.Result {
 				}
 			}
 		}
+	case strings.HasPrefix(sc.Form, "sub"):
+		rel := sc.Form[strings.Index(sc.Form, ":")+1:] + "/"
+		if e.r {
+			for _, f := range files {
+				if !strings.HasPrefix(f.path, rel) {
+					continue
+				}
+				if fl := check(f, sr.Prefix+strings.TrimPrefix(f.path, rel), sc.Src.Find(f.path).Mtime); fl != nil {
+					res.Fail = fl
+					return res
+				}
+			}
+			for p := range after {
+				legit := strings.HasPrefix(sc.Form, "subdir:") && !strings.Contains(strings.TrimSuffix(rel, "/"), "/")
+				if strings.HasPrefix(p, "src/") || (strings.HasPrefix(p, rel) && !legit) {
+					res.Fail = core.Fail("entry_at_wrong_place", fmt.Sprintf("%q exists at the destination: the source's parent directories were reproduced", p), feats...)
+					return res
+				}
+			}
+		}
 	default:
 		if e.r {
 			for _, f := range files {
@@ -381,6 +401,11 @@ func c01BuildForms(tier string) core.Source {
 			for _, s := range singles {
 				cases = append(cases, c01Case{arr: arr, args: args, form: "file:" + s})
 			}
+			if has(args, 'r', "") || has(args, 'a', "") {
+				for _, rel := range []string{"sub", "sub/deep"} {
+					cases = append(cases, c01Case{arr: arr, args: args, form: "subdir:" + rel}, c01Case{arr: arr, args: args, form: "subcontents:" + rel})
+				}
+			}
 		}
 	}
 	return core.FuncSource{N: len(cases), F: func(i int) core.Result {
@@ -389,6 +414,25 @@ func c01BuildForms(tier string) core.Source {
 		if c.form == "two" {
 			sc.Src2 = src2
 			return c01Check(sc, files, files2)
+		}
+		if strings.HasPrefix(c.form, "sub") {
+			// prior destination: the entries below the directory, where they are going to land
+			rel := c.form[strings.Index(c.form, ":")+1:]
+			prefix := ""
+			if strings.HasPrefix(c.form, "subdir:") {
+				prefix = rel[strings.LastIndex(rel, "/")+1:] + "/"
+			}
+			var d2 tm.Tree
+			for _, e := range dst {
+				if e.Path == rel && prefix != "" {
+					e.Path = strings.TrimSuffix(prefix, "/")
+					d2 = append(d2, e)
+				} else if strings.HasPrefix(e.Path, rel+"/") {
+					e.Path = prefix + strings.TrimPrefix(e.Path, rel+"/")
+					d2 = append(d2, e)
+				}
+			}
+			sc.Dst = d2
 		}
 		if strings.HasPrefix(c.form, "file:") {
 			// destination for a single file: flat
